@@ -89,6 +89,8 @@ type Index struct {
 	WhereSQL string
 	Tree     *Tree // nil: default (fill pages)
 	Layout   Layout
+	// ExtraRaw payloads are appended as additional entries after the sorted ones (hostile records)
+	ExtraRaw [][]byte
 }
 
 type Row struct {
@@ -96,6 +98,8 @@ type Row struct {
 	Vals  []interface{} // one per column; for a rowid alias column the value is ignored (stored NULL)
 	// Short>0: store only the first Short columns (row written before ALTER TABLE ADD COLUMN)
 	Short int
+	// Raw, if set, is used as the record payload verbatim (hostile records; such images are not well-formed)
+	Raw []byte
 }
 
 type Table struct {
@@ -720,6 +724,9 @@ func Build(s *Spec) (img *Image, err error) {
 			sizes := make([]int, len(rows))
 			for i, r := range rows {
 				pl := ref.EncodeRecord(storedRecord(t, r))
+				if r.Raw != nil {
+					pl = r.Raw
+				}
 				ents[i] = tableEntry{r.Rowid, pl}
 				sizes[i] = localSize(b.ps, len(pl), false) + 9 + 3 + 4
 			}
@@ -819,12 +826,16 @@ func Build(s *Spec) (img *Image, err error) {
 				sizes[i] = localSize(b.ps, len(payloads[i]), true) + 3 + 4 + 4
 			}
 			img.IndexRows[ix.Name] = plain
+			for _, raw := range ix.ExtraRaw {
+				payloads = append(payloads, raw)
+				sizes = append(sizes, localSize(b.ps, len(raw), true)+3+4+4)
+			}
 			tree := ix.Tree
 			if tree == nil {
 				tree = defaultIndexTree(sizes, b.ps, 0)
 			}
-			if tree.IndexCount() != len(recs) {
-				panic(fmt.Sprintf("dbgen: index %s: shape %s holds %d entries, have %d", ix.Name, tree, tree.IndexCount(), len(recs)))
+			if tree.IndexCount() != len(payloads) {
+				panic(fmt.Sprintf("dbgen: index %s: shape %s holds %d entries, have %d", ix.Name, tree, tree.IndexCount(), len(payloads)))
 			}
 			img.Depth[ix.Name] = tree.Depth()
 			isp := 0
